@@ -75,6 +75,17 @@ M = {
                                'IFS without a true condition returns #VALUE! instead of #N/A'),
     'c13-iferror-only-exceptions': ('C13', [(CTX, "            is_error = bool(self._find_error_in_list([cell]))", "            is_error = False")],
                                     'IFERROR only catches failures, not error values'),
+    'c17-left-off-by-one': ('C17', [(CTX, "        if len(text) < num_chars:\n            return text\n        return text[0:num_chars]", "        if len(text) <= num_chars:\n            return text\n        return text[0:num_chars] if num_chars < 3 else text[0:num_chars - 1]")],
+                            'LEFT with a count >= 3 below the length returns one character too few'),
+    'c17-mid-start': ('C17', [(CTX, "        return text[start_num - 1:start_num + num_chars - 1]", "        return text[start_num - 1:start_num + num_chars - 1] if start_num > 1 else text[0:num_chars + 1]")],
+                      'MID from position 1 returns one character too many'),
+    'c17-search-from-zero': ('C17', [(CTX, "search(within_text, start_num - 1)", "search(within_text, 0)")], 'SEARCH ignores the start position'),
+    'c17-search-case': ('C17', [(CTX, "re.compile(pattern, re.IGNORECASE | re.DOTALL)", "re.compile(pattern, re.DOTALL)")], 'SEARCH is case-sensitive'),
+    'c17-search-tilde': ('C17', [(CTX, "and find_text[index + 1] in '?*~':", "and find_text[index + 1] in '?*':")], '~~ is not an escaped tilde'),
+    'c17-blank-text-form': ('C17', [(CTX, "        if isinstance(value, self.EmptyCell):\n            return ''\n\n        if isinstance(value, bool):", "        if isinstance(value, bool):")],
+                            'a blank operand of & becomes "0" again (the repaired defect)'),
+    'c17-value-int-only': ('C17', [(CTX, "            text = text.replace(\",\", \".\")\n            return float(text)", "            text = text.replace(\",\", \".\")\n            return float(text) if 'e' not in text.lower() else '#VALUE!'")],
+                           'VALUE refuses exponent notation'),
 }
 
 
